@@ -421,10 +421,17 @@ func genVAs(r *rand.Rand, maxVAs int) []VAIn {
 
 var nodeFaultKinds = []string{"listClaims", "deleteClaim", "providerGet", "patchNode", "listPods#0", "listPods#1", "listVAs", "getPVC", "providerDelete", "patchClaimStatus", "removeNodeFinalizer"}
 
+// providerFaultClasses: how a provider Get / Delete can fail (or, "wrapnf", answer honestly in a wrapped error): a plain
+// error, a crash, and the near misses of "instance not found" (see providerErr). Every failing class leaves the
+// instance alone and must be read as "not confirmed gone".
+var providerFaultClasses = []string{"err", "crash", "apiNotFound", "apiNotFoundBare", "apiConflict", "apiGone", "ncnr", "ice", "ctx", "notFoundText", "wrapnf"}
+
 func faultClassesFor(kind string) []string {
 	switch kind {
-	case "providerGet", "providerDelete", "providerCreate":
+	case "providerCreate":
 		return []string{"err", "crash"}
+	case "providerGet", "providerDelete":
+		return providerFaultClasses
 	case "listClaims", "listPods#0", "listPods#1", "listVAs", "listNodes", "listPods":
 		return []string{"err", "crash"}
 	}
